@@ -113,7 +113,11 @@ def ode_modifier_dict(case):
         t = names[m["target"]]
         ent = d.setdefault(t, {"factors": [], "reactants": []})
         ent["factors"].append(m["factor"])
-        ent["reactants"].append([names[i] for i in m["deps"]])
+        deps = [names[i] for i in m["deps"]]
+        if m.get("ealt") and not case.get("upper"):
+            # the user names the electron by its other spelling (E / e-): one species for naunet, whatever the network's files say
+            deps = [("E" if n == "e-" else "e-") if case["pool"][i]["k"] == "e" else n for i, n in zip(m["deps"], deps)]
+        ent["reactants"].append(deps)
     return d
 
 
